@@ -342,6 +342,10 @@ pub struct GradCase {
     /// the second operand is the very same handle as the first (x op x); `leaves[1]` is ignored
     #[serde(default)]
     pub same_operand: bool,
+    /// 1: the second operand is a clone of the first with tracking switched off (`x.clone().untracked()`);
+    /// 2: the first operand is such a clone of the second; 0: independent operands. `same_operand` wins.
+    #[serde(default)]
+    pub detached_clone: u8,
 }
 
 impl GradCase {
@@ -357,15 +361,23 @@ impl GradCase {
         let mut args: Vec<usize> = (0..n).collect();
         if self.same_operand && n >= 2 {
             args[1] = 0;
+        } else if self.detached_clone != 0 && n >= 2 {
+            // slots: leaves 0..n, then the clone in slot n
+            let src = if self.detached_clone == 1 { 0 } else { 1 };
+            steps.push(Step::Clone { h: src });
+            steps.push(Step::Flag { h: n, how: FlagOp::Untracked });
+            args[1 - src] = n;
         }
         let uses = self.uses.max(1);
+        // first slot of the operation results
+        let b = steps.iter().filter(|s| matches!(s, Step::Leaf { .. } | Step::Clone { .. })).count();
         for _ in 0..uses {
             steps.push(Step::Apply(ApplySpec { op: self.op.clone(), args: args.clone() }));
         }
-        let mut root = n;
+        let mut root = b;
         for u in 1..uses {
-            steps.push(Step::Apply(ApplySpec { op: OpKind::Add, args: vec![root, n + u] }));
-            root = n + uses + u - 1;
+            steps.push(Step::Apply(ApplySpec { op: OpKind::Add, args: vec![root, b + u] }));
+            root = b + uses + u - 1;
         }
         for p in 0..self.passes.max(1) {
             steps.push(Step::Backward { h: root, seed: self.seed.as_ref().map(|s| s.iter().map(|v| v + p as f64).collect()) });
